@@ -260,10 +260,26 @@ class _Inliner:
             return None, False
         return e, awaited
 
-    def _prepared(self, h: ast.AST, call: ast.Call, is_method: bool, caller_locals: Set[str]) -> Optional[Tuple[List[ast.stmt], Dict[str, ast.expr], Dict[str, str]]]:
+    def _prepared(self, h: ast.AST, call: ast.Call, is_method: bool, caller_locals: Set[str], allow_temps: bool = False) -> Optional[Tuple[List[ast.stmt], Dict[str, ast.expr], Dict[str, str]]]:
         body = _strip_doc(list(h.body))  # type: ignore[attr-defined]
         m = _bind(h, call, is_method)
-        if m is None or not _args_ok(h, m, body):
+        if m is None:
+            return None
+        self.temps: List[ast.stmt] = []
+        if allow_temps and not _args_ok(h, m, body):
+            # an argument with an effect that the helper reads more than once is evaluated once, into a local named after the
+            # parameter, before the body (arguments are evaluated before the body anyway)
+            m = dict(m)
+            for p_, a_ in list(m.items()):
+                complex_ = any(isinstance(x, (ast.Call, ast.Await, ast.NamedExpr)) for x in ast.walk(a_))
+                rebound = any(isinstance(x, ast.Name) and x.id == p_ and isinstance(x.ctx, (ast.Store, ast.Del)) for st_ in body for x in ast.walk(st_))
+                if rebound:
+                    return None
+                if complex_ and _uses(body, p_) > 1:
+                    tmp = f'{p_}__{h.name.strip("_")}'  # type: ignore[attr-defined]
+                    self.temps.append(ast.copy_location(ast.Assign(targets=[ast.copy_location(ast.Name(id=tmp, ctx=ast.Store()), a_)], value=a_), a_))
+                    m[p_] = ast.copy_location(ast.Name(id=tmp, ctx=ast.Load()), a_)
+        if not _args_ok(h, m, body):
             return None
         if is_method:
             # the helper's own first parameter is the caller's receiver
@@ -303,12 +319,12 @@ class _Inliner:
                     call, _aw = self._call_of(st.value, helpers, me)
                     if call is not None:
                         h = helpers[call.func.attr if isinstance(call.func, ast.Attribute) else call.func.id]  # type: ignore[union-attr]
-                        prep = self._prepared(h, call, is_method, caller_locals)
+                        prep = self._prepared(h, call, is_method, caller_locals, allow_temps=True)
                         if prep is not None:
                             hb, m, ren = prep
                             nested = _guard_nest(hb)
                             if nested is not None:
-                                new = subst(h, nested, m, ren)
+                                new = [ast.fix_missing_locations(t_) for t_ in self.temps] + subst(h, nested, m, ren)
                                 out.extend(ast.copy_location(x, st) if not hasattr(x, 'lineno') else x for x in (new or [ast.copy_location(ast.Pass(), st)]))
                                 self.count += 1
                                 self.names.append(h.name)  # type: ignore[attr-defined]
